@@ -7,6 +7,7 @@ CONSTANTS
   Dev_QuitRefusedWhenBusy = FALSE
   Dev_SocketEventStartsAll = FALSE
   Dev_OpsAfterStop = FALSE
+  Dev_ChildrenRelisted = TRUE
   Configs <- mc_Configs
   Requests <- mc_Requests
   MaxReq = 1
